@@ -3,3 +3,6 @@ open ZCV.Props.C02
 #print axioms C02_attrs_exact
 #print axioms C02_value_eq_denote
 #print axioms C02_text_value_eq_denote
+#print axioms C02_text_value_eq_denote'
+#print axioms C02_end_to_end
+#print axioms C02_end_to_end_stock
